@@ -29,6 +29,6 @@ def worker(ctx, job):
 
 
 def run(ctx):
-    common.flo_run(ctx, FEATS, 400, 6000, {
+    common.flo_run(ctx, FEATS, 400, 24000, {
         "aux_activations": 100, "aux_runs_checked": 100, "aux_recurs_checked": 100, "aux_exits_checked": 100,
         "done_need_any": 10, "done_need_all": 10, "done_need_named": 10, "shared_original_reused": 10})
